@@ -194,12 +194,16 @@ class Sock6(vsim.FakeSock):
 
 
 class Host2(vsim.Host):
-    """a host with several sockets: `vsim` keeps every transport in `self.transports` (creation order = socket order);
-    `transport` (what `deliver` and the loopback use) stays the first one"""
+    """a host with several sockets: `vsim` keeps every transport in `self.transports` (creation order = socket order)"""
 
     @property
     def transport(self):
-        return self.transports[0] if getattr(self, "transports", None) else None
+        # what `vsim.Net` loops the IPv4 group back to: an IPv4 socket of the host if it has one (an IPv6 socket does not hear
+        # 224.0.0.251; its own loop-back is `V6Loopback`), else the first socket
+        ts = getattr(self, "transports", None)
+        if not ts:
+            return None
+        return next((t for t in ts if not isinstance(t.sock, Sock6)), ts[0])
 
     @transport.setter
     def transport(self, tr):
@@ -227,7 +231,46 @@ def make_host(sim, layout):
     return host
 
 
-MODES = ["classic"] * 10 + ["big"] * 3 + ["twin"] * 2 + ["ports"] * 2 + ["update"] * 2 + ["unregister"] * 2
+def plant(zc, e):
+    """a scenario sets "when the host last saw this record multicast": the cache entry, and with it every copy of the same record that
+    was heard on an IPv6 socket (same record on the wire, stored with that socket's scope id) -- a real multicast refreshes them together"""
+    from zeroconf import _dns as d
+
+    recs = [e]
+    store = zc.cache.cache.get(e.key)
+    if store is not None and isinstance(e, d.DNSAddress):
+        for x in list(store):
+            if isinstance(x, d.DNSAddress) and x.type == e.type and x.class_ == e.class_ and x.address == e.address and x.scope_id != e.scope_id:
+                recs.append(d.DNSAddress(e.name, e.type, e.class_ | (0x8000 if e.unique else 0), e.ttl, e.address, scope_id=x.scope_id, created=e.created))
+    zc.cache.async_add_records(recs)
+    return recs
+
+
+class V6Loopback:
+    """IP_MULTICAST_LOOP for the IPv6 sockets of the simulated host (`vsim.Net` loops back the IPv4 group only): a datagram the host
+    sends to ff02::fb on an IPv6 socket is heard on that socket, from the socket's own link-local address -- the 4-tuple sockaddr with
+    the interface's scope id, which the listener stamps on every AAAA record it parses (finding D29: the host then holds its own AAAA
+    records with a scope id and looks them up without one)."""
+
+    def __init__(self, sim, host):
+        self.sim, self.host = sim, host
+        self.orig = vsim.FakeTransport.sendto
+        me = self
+
+        def sendto(self_, data, addr=None):
+            r = me.orig(self_, data, addr)
+            if self_.host is host and addr is not None and addr[0] == MDNS6 and not self_.closed and isinstance(self_.sock, Sock6):
+                name = self_.sock.getsockname()
+                sim.loop.call_later(0, self_.protocol.datagram_received, bytes(data), (name[0], 5353, name[2], name[3]))
+            return r
+
+        vsim.FakeTransport.sendto = sendto
+
+    def remove(self):
+        vsim.FakeTransport.sendto = self.orig
+
+
+MODES = ["classic"] * 10 + ["big"] * 3 + ["twin"] * 2 + ["ports"] * 2 + ["update"] * 2 + ["unregister"] * 2 + ["v6own"] * 1
 
 
 def make_big_infos(xr):
@@ -251,11 +294,13 @@ def make_registry_infos(xr, mode):
     """update: exactly one service; unregister: two or three services of one type (own hosts, or one shared host)"""
     from zeroconf import ServiceInfo
 
-    n = 1 if mode == "update" else xr.choice([2, 2, 3])
+    n = 1 if mode in ("update", "v6own") else xr.choice([2, 2, 3])
     share = xr.random() < 0.4
     infos = []
     for i in range(n):
         addrs = [socket.inet_aton("10.0.0.%d" % (i + 1))]
+        if mode == "v6own" or xr.random() < 0.5:
+            addrs.append(socket.inet_pton(socket.AF_INET6, "fe80::%d" % (i + 1)))
         infos.append(ServiceInfo("_a._tcp.local.", "Inst%d._a._tcp.local." % i, 8000 + i, addresses=addrs,
                                  server="hostS.local." if share else "host%d.local." % i, properties={"k": "v%d" % i},
                                  host_ttl=xr.choice([120, 120, 8]), other_ttl=xr.choice([4500, 4500, 5])))
@@ -296,7 +341,7 @@ async def registry_family(sim, xr, box, zc, tr, uni, infos, deliver, peer):
         for i_ in infos:
             e = R.with_ttl(i_.dns_pointer(), int(i_.other_ttl))
             e.created = float(sim.loop.ms - xr.choice([0, 500, 999]))
-            zc.cache.async_add_records([e])
+            plant(zc, e)
             tr.pokes.append((sim.loop.ms, uni.id(i_.dns_pointer())))
     deliver(query([(inf.type, _k._TYPE_PTR, False)], port, 0 if port == 5353 else 0x4242), peer("10.0.0.9", "fe80::9", port), family="unregister")
     await sim.sleep_ms(xr.choice([1, 5, 15]))
@@ -333,12 +378,15 @@ def run_scenario(seed, sc_no, mode=None):
         layout = rng.choice(["4", "4", "46", "44", "446", "64"])
         if mode != "classic" and xr.random() < 0.3:
             layout = xr.choice(["6", "66", "664"])      # IPv6-only hosts (second review: never generated before)
+        if mode == "v6own":
+            layout = xr.choice(["6", "66"])             # no IPv4 socket: the host hears its own records only with a scope id
         host = make_host(sim, layout)
+        box["v6loop"] = V6Loopback(sim, host)
         zc = host.zc
         await zc.async_wait_for_start()
         if mode == "big":
             infos = make_big_infos(xr)
-        elif mode in ("update", "unregister"):
+        elif mode in ("update", "unregister", "v6own"):
             infos = make_registry_infos(xr, mode)
         else:
             infos = R.make_infos(rng, ttl_bias=[1, 2, 4, 5, 8, 120, 120, 4500])
@@ -389,6 +437,26 @@ def run_scenario(seed, sc_no, mode=None):
                 ip6 = xr.choice(["2001:db8::9", "::ffff:10.0.0.9"])
             return ((ip6, port) + v6peer[ip6]) if rx_v6 else (ip4, port)
 
+        if mode == "v6own":
+            # finding D29: an IPv6-only host has heard its own announcement (the AAAA record with the socket's scope id); QU and QM questions
+            # for the addresses well inside a quarter of the TTL / inside the last second
+            from zeroconf import DNSOutgoing, DNSQuestion, const as _k
+            inf = infos[0]
+            for k_ in range(xr.choice([1, 2, 3])):
+                out = DNSOutgoing(_k._FLAGS_QR_QUERY)
+                for typ in xr.choice([[_k._TYPE_AAAA], [_k._TYPE_A, _k._TYPE_AAAA], [_k._TYPE_ANY]]):
+                    q = DNSQuestion(inf.server, typ, _k._CLASS_IN)
+                    q.unicast = xr.random() < 0.7
+                    out.add_question(q)
+                d = bytearray(out.packets()[0]); d[1] = k_
+                deliver(bytes(d), peer("10.0.0.9", "fe80::9", 5353), family="v6own")
+                await sim.sleep_ms(xr.choice([1, 300, 1001, 2500]))
+            await sim.sleep_ms(3000)
+            box["end_t"] = sim.loop.ms
+            tr.uninstall()
+            await vsim.close_host(host)
+            return
+
         if mode in ("update", "unregister"):
             await registry_family(sim, xr, box, zc, tr, uni, infos, deliver, peer)
             await sim.sleep_ms(3000)
@@ -405,8 +473,8 @@ def run_scenario(seed, sc_no, mode=None):
                     r = xr.choice(uni.recs)
                     e = R.with_ttl(r, int(r.ttl))
                     e.created = float(sim.loop.ms - xr.choice([0, 999, 1000, 250 * int(r.ttl) - 1, 250 * int(r.ttl)]))
-                    zc.cache.async_add_records([e])
-                    tr.pokes.append((sim.loop.ms, uni.id(r)))
+                    for x_ in plant(zc, e):
+                        tr.pokes.append((sim.loop.ms, uni.id(x_)))
                 port = xr.choice([5353, 5353, 40000, 65535, 5354])
                 qs = xr.choice([[("_a._tcp.local.", _k._TYPE_PTR)], [("_a._tcp.local.", _k._TYPE_PTR)], [("_a._tcp.local.", _k._TYPE_ANY)],
                                 [(_k._SERVICE_TYPE_ENUMERATION_NAME, _k._TYPE_PTR), ("_a._tcp.local.", _k._TYPE_PTR)],
@@ -437,8 +505,8 @@ def run_scenario(seed, sc_no, mode=None):
                 age = rng.choice([250 * ttl - 1, 250 * ttl, 250 * ttl + 1, 0, 999, 1000, 1001, 250 * ttl - 1, 250 * ttl])
                 e = R.with_ttl(r, ttl)
                 e.created = float(now - age)
-                zc.cache.async_add_records([e])
-                tr.pokes.append((now, uni.id(r)))
+                for x_ in plant(zc, e):
+                    tr.pokes.append((now, uni.id(x_)))
             port = rng.choice([5353, 5353, 5353, 40000, 1, 65535, 5354])
             # message ids: boundary-biased, above all for legacy sources (one-shot resolvers do send id 0)
             qid = (qid + rng.randrange(1, 5000)) % 65536 or 1
@@ -546,15 +614,19 @@ def run_scenario(seed, sc_no, mode=None):
     finally:
         if "tr" in box:
             box["tr"].uninstall()
+        if "v6loop" in box:
+            box.pop("v6loop").remove()
     box["errors"] = [str(e.get("exception") or e.get("message")) for e in sim.errors]
     return box
 
 
-def spec_routes(asm, pkts):
+def spec_routes(asm, pkts, view="seen_blind"):
     """the property's routing of every answer of a query (one datagram, or a truncated train taken as one query: probe if any
     packet carries an authority section, known answers of the non-probe packets together, question count and first question
     of the first packet, clock of the last packet): -> (exp_ucast, exp_mcast_now, exp_mcast_later, dontcare), from the English sentence"""
-    seen = {i: (c, ttl) for (i, c, ttl) in asm["seen"]}
+    # "seen multicast": the cached copy of the record, found as it is on the wire (`seen_blind`: ignoring the scope id of the receiving
+    # interface) -- `seen` is what the code's own look-up finds
+    seen = {i: (c, ttl) for (i, c, ttl) in asm.get(view, asm["seen"])}
     t = asm["last_now"]
     legacy = asm["port"] != 5353
     probe = any(p["num_auth"] > 0 for p in pkts)
@@ -760,6 +832,21 @@ def check_trace_O(res, box, case):
             got_u = set().union(*[set(o["ans"]) for g in ucast for o in g["outs"]]) if ucast else set()
             got_m = set().union(*[set(o["ans"]) for g in mnow for o in g["outs"]]) if mnow else set()
             probe = any(p["num_auth"] > 0 for p in pkts)
+            if ((got_u - dontcare) != (eu - dontcare) or (got_m - dontcare) != (em - dontcare)) and asm.get("seen_blind") != asm["seen"]:
+                # finding D29: the code looks its own (scope-less) address record up in a cache that holds it with the scope id of the
+                # IPv6 socket it was heard on.  If the routing is what the property demands for the code's own view of "seen", and the
+                # records that differ are exactly such address records, it is that finding and nothing else
+                su, sm, sl, _dc = spec_routes(asm, pkts, view="seen")
+                scoped = {i for (i, _c, _t) in asm["seen_blind"]} - {i for (i, _c, _t) in asm["seen"]}
+                diff = ((got_u ^ eu) | (got_m ^ em)) - dontcare
+                if (got_u - dontcare) == (su - dontcare) and (got_m - dontcare) == (sm - dontcare) and diff and diff <= scoped:
+                    res.violate("C11:scoped-aaaa-not-recognised-as-seen",
+                                "%s: multicast %s ms ago and heard back on this IPv6 socket, hence cached with scope id -- the look-up with the host's own "
+                                "record (no scope id) misses it: unicast %s / multicast at once %s, the property routes unicast %s / multicast %s" % (
+                                    sorted(uni.describe(i) for i in diff), sorted({asm["last_now"] - c for (i, c, _t) in asm["seen_blind"] if i in diff}),
+                                    sorted(uni.describe(i) for i in got_u)[:6], sorted(uni.describe(i) for i in got_m)[:6],
+                                    sorted(uni.describe(i) for i in eu)[:6], sorted(uni.describe(i) for i in em)[:6]), at)
+                    eu, em, el = su, sm, sl
             if (got_u - dontcare) != (eu - dontcare):
                 res.violate("C11:unicast-set", "unicast answers %s, the property routes %s there (port %d, probe %s, %d datagram(s))" % (
                     sorted(uni.describe(i) for i in got_u)[:8], sorted(uni.describe(i) for i in eu)[:8], port, probe, len(pkts)), at)
@@ -958,7 +1045,7 @@ def block_phys(tr, box, b):
             for o in one:
                 m = o["msg"]
                 a, x = R.split_sections(m)
-                qs += ["%s:%d:%d" % (W.name_tok(q.name), q.type, raw(q)) for q in m._questions]
+                qs += ["%s:%d:%d" % (W.name_tok_labels(q.name), q.type, raw(q)) for q in m._questions]
                 ans += [(tr.uni.id(r), r.type, raw(r)) for r in a]
                 add += [(tr.uni.id(r), r.type, raw(r)) for r in x]
             rs = lambda l: ",".join("%d.%d.%d" % x for x in sorted(l)) or "-"
@@ -1022,7 +1109,8 @@ def run_trace_stream(ctx, res, n, only=None):
         for b in kept:
             b["phys"] = block_phys(tr, box, b)
         import zeroconf._handlers.query_handler as _qh
-        lines.append("c11net %s %s %d %s" % (C.b01(hasattr(_qh, "_without_scope_id")), world, len(evs), " ".join(evs)))
+        lines.append("c11net %s %s %s %d %s" % (C.b01(hasattr(_qh, "_without_scope_id")), C.b01(hasattr(_qh._QueryResponse, "_get_unique_ignoring_scope")),
+                                                world, len(evs), " ".join(evs)))
         case0 = {"stream": "tr", "seed": seed, "scenario": sc_no, "mode": box["mode"]}
         # which datagrams each reply must be based on, judged from what was delivered (sets b["want"]; verdicts are C12's)
         from . import c12 as _c12
